@@ -662,7 +662,12 @@ def rule_refspec_reads(run):
     run.end()
 
 
-RULES = [rule_fdef, rule_leaf, rule_order, rule_state_check, rule_arms, rule_cleanup, rule_writeback, rule_state_root, rule_refspec_reads]
+def rule_names(run):
+    from . import c06
+    c06.rule_names(run)           # a generated temporary may not take the (case-insensitive) name of a user object it would hide
+
+
+RULES = [rule_fdef, rule_leaf, rule_order, rule_state_check, rule_arms, rule_cleanup, rule_writeback, rule_state_root, rule_refspec_reads, rule_names]
 
 LEVEL = "other"
 EXPLANATION = (
